@@ -286,7 +286,7 @@ static void judge(int mode, const uint8_t *in, size_t inlen, const rverdict *rv,
 static int fault_class(int f)
 {
 	switch (f) { case DGF_BTYPE3: case DGF_LENNLEN: case DGF_HLIT: case DGF_CL_OVERSUB: case DGF_LL_OVERSUB: case DGF_DIST_OVERSUB: case DGF_REP_NOPREV: case DGF_REP_OVERRUN: case DGF_NO_EOB: return ISAL_INVALID_BLOCK;
-	case DGF_BAD_LENSYM: case DGF_BAD_DISTSYM: case DGF_UNASSIGNED: return ISAL_INVALID_SYMBOL; case DGF_FARDIST: return ISAL_INVALID_LOOKBACK; default: return 0; }
+	case DGF_BAD_LENSYM: case DGF_BAD_DISTSYM: case DGF_UNASSIGNED: case DGF_NODIST_MATCH: return ISAL_INVALID_SYMBOL; case DGF_FARDIST: return ISAL_INVALID_LOOKBACK; default: return 0; }
 }
 
 /* ------------------------------------------------------------------ workloads */
@@ -376,6 +376,58 @@ static void hostile_case(long idx, vrng *r, const char *lvl, int c11)
 	v_distinct(v_hash64(strm, v.slen < 4096 ? v.slen : 4096, v.slen * 31 + v.fault));
 	if (v_nsamples < 4 && v.fault) v_sample("%s -> injected fault at bit %d judged", v_case, 0);
 }
+/* every single-bit flip in the first 120 bytes of the deflate data of small ISA-L / zlib made streams (block header area, incl. the
+ * pregenerated-header shortcut of level-0 default-table streams): completion only if the reference agrees */
+static void header_flip_case(long idx, vrng *r, const char *lvl)
+{
+	vstream v; if (gen_valid(r, &v, 1 + vrn(r, 2), 0) || v.dictlen || v.slen > 6000 || v.slen < v.hdr_len + 130) return;
+	st_streams++;
+	int mode = v.wrapper == RW_RAW ? ISAL_DEFLATE : v.wrapper == RW_GZIP ? ISAL_GZIP : ISAL_ZLIB;
+	for (size_t bit = 0; bit < 120 * 8; bit++) {
+		size_t pos = v.hdr_len + bit / 8; strm[pos] ^= (uint8_t) (1u << (bit & 7));
+		rverdict rv; ref_verdict(mode, strm, v.slen, NULL, 0, &rv);
+		v_setcase(idx, "cpu=%s build=%s header bit flip: src=%d wrapper=%d slen=%zu elen=%zu deflate bit %zu flipped", lvl, V_BUILD_TAG, v.src, v.wrapper, v.slen, v.elen, bit);
+		dres d; if (run_stateless(mode, strm, v.slen, r, v.elen + 600, NULL, 0, 0, &d)) { strm[pos] ^= (uint8_t) (1u << (bit & 7)); return; }
+		judge(mode, strm, v.slen, &rv, &d, 0, "stateless", v.elen + 600);
+		if (bit % 16 == 3) { if (run_streaming(mode, strm, v.slen, r, NICH - 1, NOCH - 1, 0, -1, -1, NULL, 0, 0, 0, &d)) { strm[pos] ^= (uint8_t) (1u << (bit & 7)); return; } judge(mode, strm, v.slen, &rv, &d, 0, "stream-1call", 0); }
+		strm[pos] ^= (uint8_t) (1u << (bit & 7));
+	}
+	v_count("systematic_header_flip_streams", v.src == 2 ? "isal" : "zlib", 1);
+	v_distinct(v_hash64(strm, v.slen, 77));
+}
+/* C17 (decompression side): isal_inflate_set_dict while a block is open must be refused and leave the state untouched */
+static long st_dict_refused;
+static void dict_state_case(long idx, vrng *r, const char *lvl)
+{
+	vstream v; if (gen_valid(r, &v, vrn(r, 2), 0) || v.slen < 40 || v.slen > 60000) return;
+	if (v.wrapper != RW_RAW) { memmove(strm, strm + v.hdr_len, v.body_end - v.hdr_len); v.slen = v.body_end - v.hdr_len; v.wrapper = RW_RAW; }
+	if (v.dictlen) return;
+	struct inflate_state *s = (struct inflate_state *) gs_place(s_st, sizeof *s, G_START, 0); static struct inflate_state snap;
+	uint8_t *pin = gs_place(s_in, v.slen, G_END, 0); memcpy(pin, strm, v.slen); uint8_t *dd = gs_place(s_dict, 3000, G_END, 0); vr_fill(r, dd, 3000);
+	nev = 0; g_shape = NULL; size_t off = 0, outl = 0; int probes = 0;
+	v_setcase(idx, "cpu=%s inflate dictionary call mid-stream: src=%d slen=%zu elen=%zu", lvl, v.src, v.slen, v.elen);
+	if (V_TRY(60)) {
+		isal_inflate_init(s);
+		while (off < v.slen && s->block_state != ISAL_BLOCK_FINISH) {
+			size_t c = 1 + vrn(r, vrn(r, 3) ? 40 : 2000); if (c > v.slen - off) c = v.slen - off;
+			s->next_in = pin + off; s->avail_in = (uint32_t) c; off += c;
+			do { s->next_out = got + outl; s->avail_out = 1 + vrn(r, 5000); uint32_t ao = s->avail_out; int rc = isal_inflate(s); outl += ao - s->avail_out; if (rc < 0) { V_END; viol_ev("rejects-valid:raw:dict-probe", "isal_inflate returned %d on a valid stream", rc); goto out; } } while (s->avail_out == 0 && s->block_state != ISAL_BLOCK_FINISH && outl < EMAX - 70000);
+			if (s->block_state != ISAL_BLOCK_NEW_HDR && s->block_state != ISAL_BLOCK_FINISH && outl > 0) {
+				memcpy(&snap, s, sizeof snap); int bs = s->block_state;
+				int rc = isal_inflate_set_dict(s, dd, 1 + vrn(r, 3000)); probes++;
+				if (rc == ISAL_DECOMP_OK) { V_END; char key[120]; snprintf(key, sizeof key, "inflate-dict-accepted-mid-block:state%d", bs); viol_ev(key, "isal_inflate_set_dict returned 0 in block_state %d after %zu bytes of output", bs, outl); goto out; }
+				if (memcmp(&snap, s, sizeof snap)) { V_END; viol_ev("inflate-dict-refusal-has-side-effects", "refused (%d) but the inflate_state changed", rc); goto out; }
+				st_dict_refused++; { char e[16]; snprintf(e, sizeof e, "state%d", bs); v_count("inflate_dict_probe_states", e, 1); }
+			}
+		}
+		V_END;
+	} else { fault_key("inflate dictionary probe"); goto out; }
+	st_streams++; st_decodes++;
+	if (s->block_state == ISAL_BLOCK_FINISH && (outl != v.elen || memcmp(got, expb, v.elen))) viol_ev("wrong-bytes:raw:dict-probe", "after refused dictionary calls the stream decodes to %zu bytes (expected %zu)", outl, v.elen);
+	else if (probes) v_distinct(v_hash64(strm, v.slen < 4096 ? v.slen : 4096, 5));
+out:
+	gs_reset(s_st); gs_reset(s_in); gs_reset(s_dict);
+}
 int main(int argc, char **argv)
 {
 	v_init(argc, argv);
@@ -396,12 +448,15 @@ int main(int argc, char **argv)
 		for (long q = 0; q < per * 16; q++) {
 			long idx = (long) l * 10000000 + q; if (!v_mine(idx)) continue;
 			vrng r; vr_seed(&r, vopt.seed, 60, idx);
-			if (hostile || (both && (q & 1))) hostile_case(idx, &r, lname, c11); else valid_case(idx, &r, lname, c07 && q % 4 == 0);
+			if (!strcmp(prop, "C17")) dict_state_case(idx, &r, lname);
+			else if (!strcmp(prop, "C06") && q % 40 == 7) header_flip_case(idx, &r, lname);
+			else if (hostile || (both && (q & 1))) hostile_case(idx, &r, lname, c11); else valid_case(idx, &r, lname, c07 && q % 4 == 0);
 			if (v_nviol > v_viol_cap) break;
 		}
 	}
 	v_stat("evaluations", st_decodes); v_stat("streams", st_streams); v_stat("library_calls", st_calls); v_stat("streams_with_codes_13plus", st_deep); v_stat("finished_results_checked_against_reference", st_false_ok_checked);
 	v_stat("rejected_but_reference_lenient", st_stricter); v_stat("mutants_still_valid_and_accepted", st_benign_ok); v_stat("trailer_straddling_histories", st_trailer_straddle); v_stat("need_dict_flows", st_needdict);
+	v_stat("inflate_dict_calls_refused", st_dict_refused);
 	v_count("stream_source", "grammar", st_kind[0]); v_count("stream_source", "zlib", st_kind[1]); v_count("stream_source", "isal", st_kind[2]);
 	v_count("flip_region", "header", st_detect[0]); v_count("flip_region", "body", st_detect[1]); v_count("flip_region", "trailer", st_detect[2]);
 	for (int m = 0; m < 7; m++) if (st_modes[m]) v_count("decodes_per_mode", modename(m), st_modes[m]);
